@@ -10,7 +10,7 @@
    over-approximates every control flow, loop count and early exit of the Python function.  Storage
    identifiers below `ncaller` are the caller's (arguments, self attributes, captured variables, module
    globals); the list `ws` of an execution collects every storage written in place. *)
-From Coq Require Import List Arith Bool.
+From Coq Require Import List Arith Bool String.
 Import ListNotations.
 Require Import C13.Own C13.Proofs C13.Check C13.gen.OwnIR.
 
@@ -31,6 +31,42 @@ Theorem C13_library_functions_owned : forall p, In p all_progs ->
 Proof.
   intros p Hp ncaller ws st' He.
   pose proof all_owned as H. rewrite forallb_forall in H. specialize (H p Hp).
+  exact (own_check_sound_init ncaller (snd p) (fst p) ws st' H He).
+Qed.
+
+(* 2a. The same statement restricted to the METHODS OF THE OPERATOR CLASSES (linear_operator/operators/*.py).
+      `operator_method_progs` is the regenerated IR of every method of an operator class that contains an in-place
+      construct (trailing-underscore / dunder in-place method, augmented assignment `x += y` on a name that is not a
+      python container or an int counter = `InPlace x`, subscript assignment, out=, inplace=, metadata-in-place method,
+      attribute rebinding on an existing operator -- on `self` outside constructors or on any other object);
+      `operator_method_names` lists them (module :: Class.method (program kind)).  In these programs every value
+      obtained from `self.<attr>`, from a call on `self` or on a sub-operator (`self._linear_op.svd()`: the result of a
+      @cached method is SHARED state held in the callee's memoize cache), from a parameter, a captured variable or module
+      state is caller-owned (`SelfAttr` / `Param` / `AliasOf` of such); only results of torch allocations are `Fresh`.
+      The theorem quantifies over ALL executions (any statement order, any number of repetitions, any aliasing choice)
+      of the regenerated IR of EVERY listed method and over every number of caller storages.  harness/c13_scan.py
+      cross-checks on every run, with an independent syntactic scan of the sources, that no in-place construct of the
+      package is missing from these tables (each is an IR site or is listed with the reason why it writes no tensor). *)
+Theorem C13_operator_methods_owned : forall p, In p operator_method_progs ->
+  forall ncaller ws st', exec ncaller (fst p) (init ncaller) ws st' ->
+  forall s, In s ws -> ~ caller ncaller s.
+Proof.
+  intros p Hp. apply C13_library_functions_owned. unfold all_progs. apply in_or_app. left. exact Hp.
+Qed.
+
+(* 2b. Allow-listed sites (harness/c13_allow.json) are not simply dropped: for every function with allow-listed
+      sites, `allowed_progs` holds the FULL program INCLUDING those sites, in which only the assumption the entry
+      states is applied -- "receiver-slot": the `SelfAttr` root of the site's own target is removed (what is rebound is
+      an attribute slot of the receiver object itself, no other object and no tensor storage); "fresh_names": the named
+      local is declared not to be a tensor (its definitions become Fresh).  Under that assumption no execution writes
+      caller memory.  An entry whose assumption does not make its site pass is ignored by the translator (the site is
+      then FAILING and reported). *)
+Theorem C13_allowlisted_sites_conditional : forall p, In p allowed_progs ->
+  forall ncaller ws st', exec ncaller (fst p) (init ncaller) ws st' ->
+  forall s, In s ws -> ~ caller ncaller s.
+Proof.
+  intros p Hp ncaller ws st' He.
+  pose proof all_allowed_ok as H. rewrite forallb_forall in H. specialize (H p Hp).
   exact (own_check_sound_init ncaller (snd p) (fst p) ws st' H He).
 Qed.
 
@@ -115,5 +151,11 @@ Example C13_nonvacuous_unsafe :
 Proof. split; [vm_compute; reflexivity | apply (refuted_never_passes _ [1; 0]); vm_compute; reflexivity]. Qed.
 
 (* the generated tables are not empty *)
-Example C13_tables_nonempty : 40 <= length all_progs /\ 10 <= length summaries /\ 500 <= n_functions_scanned.
+Example C13_tables_nonempty : 40 <= List.length all_progs /\ 10 <= List.length summaries /\ 500 <= n_functions_scanned.
 Proof. vm_compute. repeat split; repeat constructor. Qed.
+
+(* the operator-method table is not empty, every program in it is named, and it is part of `all_progs` *)
+Example C13_operator_table_nonempty :
+  20 <= List.length operator_method_progs /\ List.length operator_method_names = List.length operator_method_progs /\
+  List.length all_progs = List.length operator_method_progs + List.length other_progs.
+Proof. split; [vm_compute; repeat constructor | split; [vm_compute; reflexivity | unfold all_progs; apply app_length]]. Qed.
